@@ -226,9 +226,6 @@ func (s *S3Proxy) ListObjectVersions(ctx context.Context, input *s3.ListObjectVe
 	if input.VersionIdMarker != nil && *input.VersionIdMarker == "" {
 		input.VersionIdMarker = nil
 	}
-	if input.MaxKeys != nil && *input.MaxKeys == 0 {
-		input.MaxKeys = nil
-	}
 	if input.ExpectedBucketOwner != nil && *input.ExpectedBucketOwner == "" {
 		input.ExpectedBucketOwner = nil
 	}
@@ -393,9 +390,6 @@ func (s *S3Proxy) CompleteMultipartUpload(ctx context.Context, input *s3.Complet
 	if input.IfNoneMatch != nil && *input.IfNoneMatch == "" {
 		input.IfNoneMatch = nil
 	}
-	if input.MpuObjectSize != nil && *input.MpuObjectSize == 0 {
-		input.MpuObjectSize = nil
-	}
 	if input.SSECustomerAlgorithm != nil && *input.SSECustomerAlgorithm == "" {
 		input.SSECustomerAlgorithm = nil
 	}
@@ -430,9 +424,6 @@ func (s *S3Proxy) ListMultipartUploads(ctx context.Context, input *s3.ListMultip
 	}
 	if input.KeyMarker != nil && *input.KeyMarker == "" {
 		input.KeyMarker = nil
-	}
-	if input.MaxUploads != nil && *input.MaxUploads == 0 {
-		input.MaxUploads = nil
 	}
 	if input.Prefix != nil && *input.Prefix == "" {
 		input.Prefix = nil
@@ -492,9 +483,6 @@ func (s *S3Proxy) ListMultipartUploads(ctx context.Context, input *s3.ListMultip
 func (s *S3Proxy) ListParts(ctx context.Context, input *s3.ListPartsInput) (s3response.ListPartsResult, error) {
 	if input.ExpectedBucketOwner != nil && *input.ExpectedBucketOwner == "" {
 		input.ExpectedBucketOwner = nil
-	}
-	if input.MaxParts != nil && *input.MaxParts == 0 {
-		input.MaxParts = nil
 	}
 	if input.PartNumberMarker != nil && *input.PartNumberMarker == "" {
 		input.PartNumberMarker = nil
@@ -936,9 +924,6 @@ func (s *S3Proxy) GetObjectAttributes(ctx context.Context, input *s3.GetObjectAt
 	if input.ExpectedBucketOwner != nil && *input.ExpectedBucketOwner == "" {
 		input.ExpectedBucketOwner = nil
 	}
-	if input.MaxParts != nil && *input.MaxParts == 0 {
-		input.MaxParts = nil
-	}
 	if input.PartNumberMarker != nil && *input.PartNumberMarker == "" {
 		input.PartNumberMarker = nil
 	}
@@ -1157,9 +1142,6 @@ func (s *S3Proxy) ListObjects(ctx context.Context, input *s3.ListObjectsInput) (
 	if input.Marker != nil && *input.Marker == "" {
 		input.Marker = nil
 	}
-	if input.MaxKeys != nil && *input.MaxKeys == 0 {
-		input.MaxKeys = nil
-	}
 	if input.Prefix != nil && *input.Prefix == "" {
 		input.Prefix = nil
 	}
@@ -1193,9 +1175,6 @@ func (s *S3Proxy) ListObjectsV2(ctx context.Context, input *s3.ListObjectsV2Inpu
 	}
 	if input.ExpectedBucketOwner != nil && *input.ExpectedBucketOwner == "" {
 		input.ExpectedBucketOwner = nil
-	}
-	if input.MaxKeys != nil && *input.MaxKeys == 0 {
-		input.MaxKeys = nil
 	}
 	if input.Prefix != nil && *input.Prefix == "" {
 		input.Prefix = nil
